@@ -7,7 +7,7 @@ case = {"segs": [...as c13...], "groups": [[gid, [members], [includes], neuro_le
 import json
 import sys
 
-from c13_impl import build_cell, guarded, q, qpt
+from c13_impl import apply_history, build_cell, cached_adjacency, guarded, q, qpt
 
 
 def seg_rows(c):
@@ -27,23 +27,48 @@ def resolved(c, gids):
     return [[g, guarded(lambda g=g: list(c.get_all_segments_in_group(g)))] for g in gids]
 
 
+def fl(r):
+    return r[0] / r[1]
+
+
+def case_of_state(segs, groups):
+    """a case description (floats) equal to the present state of a cell: used to build a FRESH equal cell"""
+    def pt(p):
+        return None if p is None else [fl(x) for x in p]
+    return {"segs": [[i, None if par is None else par[0], None if par is None else fl(par[1]), pt(prox), pt(dist)]
+                     for i, par, prox, dist in segs],
+            "groups": [[g[0], g[1], g[2], g[3]] for g in groups]}
+
+
 def run_case(case):
     c = build_cell(case)
     light = case.get("light")
     pre_gids = [g[0] for g in case.get("groups", [])]
     out = {}
-    if not light:
+    if not light and not case.get("history"):
         out["lens_before"] = [[s.id, guarded(lambda s=s: q(float(c.get_segment_length(s.id))))] for s in c.morphology.segments]
         out["resolved_before"] = resolved(c, pre_gids)
-    # fresh cell for the call itself: no cached adjacency list / graph from the queries above
-    c = build_cell(case)
+        # fresh cell for the call itself: no cached adjacency list / graph from the queries above
+        c = build_cell(case)
+    if case.get("history"):
+        # the SAME Cell object goes through the history and then the measured call
+        apply_history(c, case["history"])
+        out["pre_segs"] = seg_rows(c)
+        out["pre_groups"] = group_rows(c)
+        out["adj_cached"] = cached_adjacency(c)
+        # what a freshly built equal cell gives
+        fresh = build_cell(case_of_state(out["pre_segs"], out["pre_groups"]))
+        fres = guarded(lambda: fresh.create_unbranched_segment_group_branches(
+            case["root"], reorder_segment_groups=case.get("reorder", True),
+            optimise_segment_groups=case.get("optimise", True)))
+        out["fresh"] = {"call": fres, "segs": seg_rows(fresh), "groups": group_rows(fresh)}
     res = guarded(lambda: c.create_unbranched_segment_group_branches(
         case["root"], reorder_segment_groups=case.get("reorder", True),
         optimise_segment_groups=case.get("optimise", True)))
     out["call"] = res
     out["segs"] = seg_rows(c)
     out["groups"] = group_rows(c)
-    if not light:
+    if not light and not case.get("history"):
         out["lens_after"] = [[s.id, guarded(lambda s=s: q(float(c.get_segment_length(s.id))))] for s in c.morphology.segments]
         out["resolved_after"] = resolved(c, pre_gids)
     return out
